@@ -565,6 +565,15 @@ def c14_cli(ctx, cases):
                 stats["with_hidden_names"] += 1
         if w:
             viol.append(cli_violation(ctx, r, w))
+    # "lines up with the input": the input files of these runs read back (reader model SimpleRead, tied to simple::read by C15's stream) as
+    # exactly the instances the Coq-side evaluation uses
+    bad_files = [m for m in metas if not (m.get("file_code", 0) & 1)]
+    stats["input_files_read_back_as_the_instance"] = len(metas) - len(bad_files)
+    if bad_files and not viol:
+        m = bad_files[0]
+        rp = ctx.replay({"kind": "no-failing-input-found", "stream": "cli", "broken": "correspondence CorrCliFile.check_inst_file: the instance file written by "
+                         "io::simple::write_input_data does not read back (SimpleRead.simple_read) as the instance", "file": m["file"], "inst": m["inst"]})
+        viol.append(("the input file of a CLI run does not read back as the instance (%d files)" % len(bad_files), rp, True))
     ctx.extra_cov = {"cli_runs": dict(stats)}
     return viol[:4], []
 
